@@ -11,10 +11,18 @@ use std::io::Read;
 struct ScribbleRead {
     inner: SchedRead,
     scr: Option<u8>,
+    /// answer Ok(0) without touching the schedule, although data may be left (op `z`)
+    zero: bool,
 }
 
 impl Read for ScribbleRead {
     fn read(&mut self, buf: &mut [u8]) -> std::io::Result<usize> {
+        if self.zero {
+            if let Some(j) = self.scr {
+                buf.fill(j);
+            }
+            return Ok(0);
+        }
         match self.inner.read(buf) {
             Ok(k) => {
                 if let Some(j) = self.scr {
@@ -50,7 +58,8 @@ fn run_ops(w: &mut BufferWindow, rd: &mut ScribbleRead, ops: &str, out: &mut Vec
         }
         let (c, arg) = op.split_at(1);
         match c {
-            "f" => {
+            "f" | "z" => {
+                rd.zero = c == "z";
                 rd.scr = if arg.is_empty() { None } else { Some(u8::from_str_radix(arg, 16).unwrap()) };
                 let ev = match w.fill_buf(&mut *rd) {
                     Ok(n) => format!("F{}", n),
@@ -112,7 +121,7 @@ fn finish(out: Vec<String>) -> String {
 fn ops_case(a: &[&str]) -> String {
     let (mode, spec, h, sched, ops) = (a[0], a[1], a[2], a[3], a[4]);
     let data = unhex(h);
-    let mut rd = ScribbleRead { inner: SchedRead::new(data.clone(), parse_sched(sched)), scr: None };
+    let mut rd = ScribbleRead { inner: SchedRead::new(data.clone(), parse_sched(sched)), scr: None, zero: false };
     let mut out = Vec::new();
     match mode {
         "buf" => {
@@ -134,13 +143,13 @@ fn ops_case(a: &[&str]) -> String {
 
 fn rec_case(a: &[&str]) -> String {
     let (spec, h1, sched1, ops1, h2, sched2, ops2) = (a[0], a[1], a[2], a[3], a[4], a[5], a[6]);
-    let mut rd1 = ScribbleRead { inner: SchedRead::new(unhex(h1), parse_sched(sched1)), scr: None };
+    let mut rd1 = ScribbleRead { inner: SchedRead::new(unhex(h1), parse_sched(sched1)), scr: None, zero: false };
     let mut w1 = BufferWindowBuilder::default().buffer(unhex(spec).into_boxed_slice()).build();
     let mut scratch = Vec::new();
     run_ops(&mut w1, &mut rd1, ops1, &mut scratch);
     // what TokenReader::into_parts hands back
     let recycled = w1.buf;
-    let mut rd2 = ScribbleRead { inner: SchedRead::new(unhex(h2), parse_sched(sched2)), scr: None };
+    let mut rd2 = ScribbleRead { inner: SchedRead::new(unhex(h2), parse_sched(sched2)), scr: None, zero: false };
     let mut w2 = BufferWindowBuilder::default().buffer(recycled).build();
     let mut out = Vec::new();
     run_ops(&mut w2, &mut rd2, ops2, &mut out);
